@@ -96,6 +96,16 @@ CHECKS["C17"] = dict(
     technique="Lean 4 proof (positional = declarative window semantics, partition locality, decide over the regenerated offset table) + structural/behavioural correspondence + calendar reference oracle",
 )
 
+CHECKS["C15"] = dict(
+    category="proof",
+    text="Lean 4 theorems (Properties/C15.lean): every class of sink that consumes a Python set — sorted with a total order (unique sorted permutation), commutative-monoid fold, existence test, singleton — is insensitive to the enumeration order, "
+         "and so is any tuple of such sinks; obligations C15_no_ordered_site and C15_no_mutation_site over Gen/OrderSites.lean, which is REGENERATED on every run by an AST scan of every set-typed iteration (fail closed) and a taint analysis of writes to objects reachable from the registered graph, "
+         "in the modules reachable from compile()/explain(). Search/validation: the same layers and queries compiled in child processes under distinct PYTHONHASHSEED values (byte comparison), in reversed order on one shared layer after explain() and repeated calls, and model_dump() snapshots before/after.",
+    design_ref="DESIGN.md §4 C15",
+    note="The site classification and the taint analysis are syntactic (trusted translator; three reviewed sites with re-checked reasons); time/randomness/environment reads were searched for and not found. Three genuine defects fixed (was F13).",
+    technique="Lean 4 proof (order-insensitivity of sink classes + decide over the regenerated site table) + translator (AST scan, taint analysis) + multi-process hash-seed differential",
+)
+
 CHECKS["C16"] = dict(
     category="proof",
     text="Lean 4 theorem C16_string_one_literal: for EVERY value and every continuation, the formatted string/date value lexes as exactly one string literal whose content is the value (round-trip), "
